@@ -109,6 +109,7 @@ type CallBind struct {
 	Name    string
 	Type    string // let only: the ghost's type (it is unconstrained on paths that do not pass the call site)
 	Expr    ast.Expr
+	Default ast.Expr // let only, optional: the value on paths that do not pass the call site (evaluated at entry)
 }
 
 type CallAssert struct {
@@ -695,7 +696,7 @@ func (sf *SpecFile) addItem(it *rawItem, pkg string) error {
 				fs.FrameTags = append(fs.FrameTags, strings.Fields(strings.ReplaceAll(l.text, ",", " "))...)
 			case "let":
 				// let <name> <type> = <expr> after call <callee>#<k>   (expr may use arg<i>, result<i> and the variables in scope)
-				m := regexp.MustCompile(`^(\w+)\s+(\S+)\s*=\s*(.*?)\s+after\s+call\s+(\S+?)#(\d+)$`).FindStringSubmatch(l.text)
+				m := regexp.MustCompile(`^(\w+)\s+(\S+)\s*=\s*(.*?)\s+after\s+call\s+(\S+?)#(\d+)(?:\s+default\s+(.*))?$`).FindStringSubmatch(l.text)
 				if m == nil {
 					return fmt.Errorf("bad let clause %q", l.text)
 				}
@@ -704,7 +705,13 @@ func (sf *SpecFile) addItem(it *rawItem, pkg string) error {
 				if err != nil {
 					return err
 				}
-				fs.Lets = append(fs.Lets, CallBind{Callee: m[4], Ordinal: n, Name: m[1], Type: m[2], Expr: e})
+				var def ast.Expr
+				if m[6] != "" {
+					if def, err = parseSpecExpr(m[6]); err != nil {
+						return err
+					}
+				}
+				fs.Lets = append(fs.Lets, CallBind{Callee: m[4], Ordinal: n, Name: m[1], Type: m[2], Expr: e, Default: def})
 			case "at":
 				m := regexp.MustCompile(`^return\s*(\d*)\s*:\s*assert\s+(.*)$`).FindStringSubmatch(l.text)
 				if m == nil {
